@@ -632,3 +632,43 @@ def pure_ic_rule(repo, rep):
         okl = bool(lay) and all(any(isinstance(x, ast.comprehension) and _k(x.iter) == "nodelist" for x in ast.walk(n.value)) for n in lay)
         rep.ob("ICP", okl, "%s: the indicator arrays are laid out over nodelist" % name, func=f, node=lay[0] if lay else f.node,
                construct="indicator comprehension over nodelist", detail="" if okl else "an indicator array is not built by iterating nodelist")
+
+
+# ---------------------------------------------------------------------------
+# ORD: with a nodelist in scope, positional data follows nodelist
+# ---------------------------------------------------------------------------
+def nodelist_order_rule(repo, rep, modules=("analytic",)):
+    rep.rule("ORD", "in a function that receives `nodelist` (the order of the rows of its vectors), no positional sequence is built "
+                    "by iterating the graph (G, G.nodes(), G.adjacency(), G.adj.items(), G.degree()): a list / array filled in graph "
+                    "insertion order is misaligned with nodelist-ordered vectors whenever the two orders differ")
+    GRAPH_ORDER = ("G", "G.nodes()", "G.nodes", "G.adjacency()", "G.adj.items()", "G.adj", "G.degree()", "G.nodes(data=True)")
+    nfun = nsite = 0
+    for m in modules:
+        for f in repo.all_funcs():
+            if f.module != m or "nodelist" not in f.all_params:
+                continue
+            nfun += 1
+            # `nodelist = G.nodes()` / list(G) as the DEFAULT is fine: then the two orders are the same by construction
+            bad = []
+            for n in own_nodes(f.node):
+                if isinstance(n, (ast.ListComp, ast.GeneratorExp)):
+                    its = [g.iter for g in n.generators[:1]]
+                    if its and _k(its[0]) in GRAPH_ORDER:
+                        nsite += 1
+                        bad.append((n, "a list built by `for ... in %s`" % _k(its[0])))
+                elif isinstance(n, ast.For) and _k(n.iter) in GRAPH_ORDER:
+                    nsite += 1
+                    if any(isinstance(x, ast.Call) and isinstance(x.func, ast.Attribute) and x.func.attr in ("append", "extend", "insert")
+                           for x in ast.walk(n)):
+                        bad.append((n, "a list appended to inside `for ... in %s`" % _k(n.iter)))
+            if bad:
+                rep.analysed(f)
+                for n, what in bad:
+                    rep.ob("ORD", False, "%s: positional data follows nodelist" % f.name, func=f, node=n, construct=what,
+                           detail="%s in a function whose vectors are ordered by `nodelist`: rows are attributed to the wrong node when "
+                           "nodelist is not the graph's insertion order" % what)
+            else:
+                rep.ob("ORD", True, "%s: positional data follows nodelist" % f.name, func=f, node=f.node, construct="no graph-ordered sequence")
+    rep.count("ORD:functions with a nodelist parameter", nfun)
+    rep.count("ORD:graph-ordered iterations examined", nsite)
+    rep.floor("ORD", "functions with a nodelist parameter", nfun, 10)
